@@ -3,6 +3,7 @@ import numpy as np
 from .. import core, gen, rdpfam
 
 PROP_FILE = 'Knee/Props/C05.lean'
+PROP_FILES = ['Knee/Props/C05.lean', 'Knee/Props/C05S.lean']
 RULE = ('rdp_fixed for EVERY k in 0..n+1 on each curve (the chain k=2..n is the history) x 2 distances x 3 orderings; curves as in C01 plus '
         'symmetric curves (equal ordering keys, pins the stable-sort order in the correspondence). Predicate on the REAL outputs: size, '
         'nestedness, the gained index is strictly inside a retained segment, is (within 1e-9 relative) a farthest interior point or the middle '
